@@ -12,9 +12,10 @@
 From Coq Require Import ZArith List Arith Bool String Lia.
 From Flocq Require Import IEEE754.BinarySingleNaN.
 From CF Require Import Base.Mem Model.Tables Model.Prim Model.SimdApi Model.Kernels Model.Regs Model.Intrinsics Model.RegTable.
-From CF Require Import Gen.GenRegs Gen.GenRegsGoals_Fallback Gen.GenRegsGoals Gen.GenRegsGoals_Avx2_u8 Gen.GenRegsGoals_Neon_i8.
+From CF Require Import Gen.GenRegs Gen.GenRegsGoals_Fallback Gen.GenRegsGoals Gen.GenRegsGoals_Avx2_u8 Gen.GenRegsGoals_Neon_i8
+     Gen.GenRegsGoals_Avx2_i8 Gen.GenRegsGoals_Neon_u64.
 From CF Require Import Proofs.ReduceCorrect Proofs.IntReduce Proofs.IntBackends Proofs.BackendTable
-     Proofs.IntrinsicsFacts Proofs.GenRegsSpec.
+     Proofs.IntrinsicsFacts Proofs.GenRegsSpec Proofs.ListFacts Model.RustLoops Proofs.RustLoopsFacts Proofs.NeonSpec.
 Import ListNotations.
 
 Theorem gen_regs_refine : Forall entry_goal gen_reg_table.
@@ -44,7 +45,8 @@ Definition has_entry (r : reg) (t : ty) (m : rmeth) : bool :=
 
 Definition int_tys : list ty := [I8; I16; I32; I64; U8; U16; U32; U64].
 Definition float_tys : list ty := [F32; F64].
-(* lane-wise arithmetic, broadcast, and their dense forms (div: floats only; integers divide in a scalar loop) *)
+(* lane-wise arithmetic, broadcast, and their dense forms (div / div_dense are listed separately: integers divide in a
+   scalar loop that may panic, option-valued shape) *)
 Definition lane_methods : list rmeth :=
   [MFilled; MZeroed; MAdd; MSub; MMul; MMax; MMin; MFmadd;
    MFilledDense; MZeroedDense; MAddDense; MSubDense; MMulDense; MMaxDense; MMinDense; MFmaddDense;
@@ -54,18 +56,43 @@ Definition fold_methods : list rmeth := [MSumToValue; MMaxToValue; MMinToValue].
 Definition covered (r : reg) (ts : list ty) (ms : list rmeth) : bool :=
   forallb (fun t => forallb (has_entry r t) ms) ts.
 
+(* Fallback: everything but elements_per_lane / elements_per_dense (mem::size_of of the generic type) *)
+Definition lane_methods_fb : list rmeth :=
+  [MFilled; MZeroed; MAdd; MSub; MMul; MMax; MMin; MFmadd;
+   MFilledDense; MZeroedDense; MAddDense; MSubDense; MMulDense; MMaxDense; MMinDense; MFmaddDense;
+   MSumToRegister; MMaxToRegister; MMinToRegister].
+Definition fb_covered (ms : list rmeth) : bool :=
+  forallb (fun m => existsb (fun e => rmeth_eqb m (fst e)) gen_fallback_table) ms.
+
+(* which generated definitions are option-valued (may panic): exactly integer div / div_dense everywhere, and on NEON
+   the 64-bit mul / max / min (scalar loops storing into an array) with what is built on them *)
+Definition is_opt (g : gen_any) : bool :=
+  match g with
+  | GI (O_vvv _) | GI (O_vvvv _) | GI (O_ddd _) | GI (O_dddd _) | GI (O_dv _) => true
+  | _ => false
+  end.
+Definition neon64_loop_methods : list rmeth :=
+  [MMul; MMax; MMin; MFmadd; MMulDense; MMaxDense; MMinDense; MFmaddDense; MMaxToRegister; MMinToRegister].
+Definition opt_expected (r : reg) (t : ty) (m : rmeth) : bool :=
+  negb (is_float t)
+  && (existsb (rmeth_eqb m) [MDiv; MDivDense]
+      || (match r with Neon => true | _ => false end
+          && (ty_eqb t I64 || ty_eqb t U64) && existsb (rmeth_eqb m) neon64_loop_methods)).
+
+Theorem gen_opt_shapes :
+  forallb (fun e => let '(r, t, m, g) := e in Bool.eqb (is_opt g) (opt_expected r t m)) gen_reg_table = true.
+Proof. reflexivity. Qed.
+
 Theorem gen_priority_covered :
-  (* (a) AVX2 integers *)            covered Avx2 int_tys (lane_methods ++ fold_methods)%list = true
+  (* (a) AVX2 integers *)            covered Avx2 int_tys (MDiv :: MDivDense :: lane_methods ++ fold_methods)%list = true
   (* (b) AVX2 / AVX2+FMA floats *)   /\ covered Avx2 float_tys (MDiv :: MDivDense :: MMaxToValue :: MMinToValue :: lane_methods) = true
                                      /\ covered Avx2Fma float_tys (MDiv :: MDivDense :: MMaxToValue :: MMinToValue :: lane_methods) = true
                                      /\ covered Avx2 [F32] [MSumToValue] = true /\ covered Avx2Fma [F32] [MSumToValue] = true
-  (* (c) AVX-512 *)                  /\ covered Avx512 int_tys (lane_methods ++ fold_methods)%list = true
+  (* (c) AVX-512 *)                  /\ covered Avx512 int_tys (MDiv :: MDivDense :: lane_methods ++ fold_methods)%list = true
                                      /\ covered Avx512 float_tys (MDiv :: MDivDense :: lane_methods ++ fold_methods)%list = true
-  (* (d) NEON *)                     /\ covered Neon [I8; I16; I32; U8; U16; U32] (lane_methods ++ fold_methods)%list = true
+  (* (d) NEON *)                     /\ covered Neon int_tys (MDiv :: MDivDense :: lane_methods ++ fold_methods)%list = true
                                      /\ covered Neon float_tys (MDiv :: MDivDense :: lane_methods ++ fold_methods)%list = true
-                                     /\ covered Neon [I64; U64]
-                                          (MFilled :: MZeroed :: MAdd :: MSub :: MAddDense :: MSubDense :: MSumToRegister :: fold_methods) = true
-  (* (e) Fallback *)                 /\ List.length gen_fallback_table = 22.
+  (* (e) Fallback *)                 /\ fb_covered (MDiv :: MDivDense :: lane_methods_fb ++ fold_methods)%list = true.
 Proof. repeat split; reflexivity. Qed.
 
 Lemma has_entry_In r t m : has_entry r t m = true -> exists g, In (r, t, m, g) gen_reg_table.
@@ -109,6 +136,35 @@ Theorem gen_neon_f32_fmadd :
 Proof.
   intros x y z. unfold gen_Neon_f32_fmadd, vfmaq_f32, vfmla.
   revert y z. induction x as [|a x IH]; intros [|b y] [|c z]; cbn [map3]; try reflexivity. rewrite IH. reflexivity.
+Qed.
+
+(* integer division (a scalar loop over the transmuted lanes in the source): the generated AVX2 i8 `div` on the bytes of
+   arbitrary registers is the model's [r_div] = the lane-wise wrapping_div, and it PANICS exactly when some divisor lane
+   is zero *)
+Theorem gen_avx2_i8_div :
+  forall x y, List.length x = 32 -> List.length y = 32 -> Forall (in_range 8) x -> Forall (in_range 8) y ->
+    option_map (lanes_of 8) (gen_Avx2_i8_div (bytes_of 8 x) (bytes_of 8 y)) = r_div (avx2_int_ops true 8) x y
+    /\ option_map (lanes_of 8) (gen_Avx2_i8_div (bytes_of 8 x) (bytes_of 8 y)) = sequence (map2 (i_div true 8) x y)
+    /\ (gen_Avx2_i8_div (bytes_of 8 x) (bytes_of 8 y) = None <-> In 0%Z y).
+Proof.
+  intros x y Lx Ly Fx Fy.
+  destruct gen_Avx2_i8_div_ok as [_ G]. cbv beta iota delta [method_goal obin_goal] in G.
+  assert (E : option_map (lanes_of 8) (gen_Avx2_i8_div (bytes_of 8 x) (bytes_of 8 y)) = r_div (avx2_int_ops true 8) x y)
+    by (apply G; split; assumption).
+  assert (E2 : r_div (avx2_int_ops true 8) x y = sequence (map2 (i_div true 8) x y)) by apply div_lanes_seq.
+  split; [exact E|]. split; [rewrite E; exact E2|].
+  rewrite <- (seq_div_none true 8 x y) by lia. rewrite <- E2, <- E.
+  destruct (gen_Avx2_i8_div (bytes_of 8 x) (bytes_of 8 y)); cbn [option_map]; split; intros H; try reflexivity; discriminate H.
+Qed.
+
+(* NEON u64 max (a scalar loop of core::cmp::max in the source): never panics, lane-wise unsigned maximum *)
+Theorem gen_neon_u64_max :
+  forall x y, List.length x = 2 -> List.length y = 2 -> Forall (in_range 64) x -> Forall (in_range 64) y ->
+    option_map (lanes_of 64) (gen_Neon_u64_max (bytes_of 64 x) (bytes_of 64 y)) = Some (map2 (i_max false 64) x y).
+Proof.
+  intros x y Lx Ly Fx Fy.
+  destruct gen_Neon_u64_max_ok as [_ G]. cbv beta iota delta [method_goal obin_goal tot2] in G.
+  exact (G x y (conj Lx Fx) (conj Ly Fy)).
 Qed.
 
 (* NEON i8 add straight against the scalar specification *)
